@@ -219,17 +219,46 @@ def extra_checks(pid, tier, seed):
             seen.setdefault(tag, []).append(name)
             await asyncio.sleep(0)
 
-        pools = [TaskPool(), TaskPool(pool_size=2), SimpleTaskPool(work, args=("s2",)),
-                 TaskPool(name="named"), SimpleTaskPool(work, args=("s4",), pool_size=3)]
-        names = [str(p) for p in pools]
-        unnamed = [n for i, n in enumerate(names) if i != 3]
-        if len(set(unnamed)) != len(unnamed):
-            fails.append({"what": "unnamed pools share a name", "names": names})
-        counts = [0] * len(pools)
-        for _ in range(30):
-            i = rng.randrange(len(pools))
-            n = rng.randint(1, 3)
+        pools, names, counts, closed = [], [], [], []
+
+        def new_pool():
+            i = len(pools)
+            k = rng.randrange(5)
+            if k == 0:
+                p = TaskPool()
+            elif k == 1:
+                p = TaskPool(pool_size=rng.randint(1, 3))
+            elif k == 2:
+                p = SimpleTaskPool(work, args=(f"p{i}",))
+            elif k == 3:
+                p = TaskPool(name=f"named{i}")
+            else:
+                p = SimpleTaskPool(work, args=(f"p{i}",), pool_size=3)
+            pools.append(p)
+            names.append(str(p))
+            counts.append(0)
+            closed.append(False)
+
+        for _ in range(5):
+            new_pool()
+        # pools are created, used, flushed and closed in random order: a pool created after
+        # another one was closed must still get a name no other unnamed pool ever had
+        for _ in range(60):
+            r = rng.random()
+            if r < 0.2:
+                new_pool()
+                continue
+            live = [j for j in range(len(pools)) if not closed[j]]
+            if not live:
+                new_pool()
+                continue
+            i = rng.choice(live)
             p = pools[i]
+            if r < 0.4:
+                await p.gather_and_close()
+                closed[i] = True
+                continue
+            n = rng.randint(1, 3)
             if isinstance(p, SimpleTaskPool):
                 p.start(n)
             else:
@@ -239,10 +268,14 @@ def extra_checks(pid, tier, seed):
                 await asyncio.sleep(0)
             if rng.random() < 0.3:
                 await p.flush()
-        for p in pools:
-            await p.gather_and_close()
         for i, p in enumerate(pools):
-            tag = {2: "s2", 4: "s4"}.get(i, f"p{i}")
+            if not closed[i]:
+                await p.gather_and_close()
+        unnamed = [n for n in names if not n.startswith("named")]
+        if len(set(unnamed)) != len(unnamed):
+            fails.append({"what": "unnamed pools share a name", "names": names})
+        for i, p in enumerate(pools):
+            tag = f"p{i}"
             got = []
             for nm in seen.get(tag, []):
                 m = re.fullmatch(re.escape(names[i]) + r"_Task-(\d+)", nm)
@@ -255,7 +288,10 @@ def extra_checks(pid, tier, seed):
                 fails.append({"what": "ids of one pool are not 0..n-1 (pools must number independently)",
                               "pool": names[i], "ids": sorted(got), "created": counts[i]})
 
-    asyncio.run(go())
+    for _ in range(12 if tier == "quick" else 100):
+        asyncio.run(go())
+        if fails:
+            break
     return fails
 
 
